@@ -120,6 +120,15 @@ theorem ini_write_in_bounds (file : Option Bytes) (_hfile : ∀ t, file = some t
     (anyRun (Ini.openFile file shouldwrite) ops).isSome = true :=
   AslProofs.Ini.anyRun_isSome _ (AslProofs.Ini.openFile_hasNE file shouldwrite) ops
 
+/-- **ini_unreadable_path.**  An `IniFile` on a path that opens but cannot be read (a directory) is, with the repaired
+    `TextFile::end()` (end of file *or read error*, 4bfeeba; before, the constructor's `while(!file.end())` never
+    ended), the `IniFile` of an empty file, and no history of NUL-free `set` / `operator[]=` / `write` calls on it reads outside
+    `_lines`. -/
+theorem ini_unreadable_path (shouldwrite : Bool) (ops : List AnyOp) (_hops : ∀ o ∈ ops, o.NulFree) :
+    Ini.readUnreadable shouldwrite = Ini.read [] shouldwrite ∧
+    (anyRun (Ini.readUnreadable shouldwrite) ops).isSome = true :=
+  ⟨rfl, AslProofs.Ini.anyRun_isSome _ (AslProofs.Ini.read_hasNE [] shouldwrite) ops⟩
+
 /-- the comment line `; c` is not an entry line, `a=1` is -/
 example : isEntryLine [59, 32, 99] = false ∧ isEntryLine [97, 61, 49] = true := by decide
 
